@@ -126,6 +126,11 @@ class _ConstantFindingMapper(CombineMapper):
 
     map_function_symbol = map_constant
 
+    def map_logical_not(self, expr):
+        # CombineMapper does not call combine() for this node; classify it
+        # here so that the node stack stays in step.
+        return self.combine([self.rec(expr.child)])
+
     def map_variable(self, expr):
         self.node_stack.pop()
         result = expr not in self.free_variables
